@@ -1,4 +1,4 @@
-From BBS Require Import Common.Sx Auth.Auth.
+From BBS Require Import Common.Sx Common.ListX Auth.Auth.
 
 Lemma denied_eq v : denied v = true <-> v = 7.
 Proof. unfold denied. apply Z.eqb_eq. Qed.
@@ -180,22 +180,6 @@ Proof.
 Qed.
 
 (** The decorator. *)
-Lemma insert_sorted_in n x l : In x (insert_sorted n l) <-> x = n \/ In x l.
-Proof.
-  induction l as [|h t IH]; cbn [insert_sorted].
-  - cbn. intuition.
-  - destruct (Nat.ltb n h); [cbn; intuition|].
-    destruct (Nat.eqb n h) eqn:He.
-    + apply Nat.eqb_eq in He. subst. cbn. intuition.
-    + cbn. rewrite IH. intuition.
-Qed.
-
-Lemma dedup_sort_in x l : In x (dedup_sort l) <-> In x l.
-Proof.
-  induction l as [|h t IH]; cbn [dedup_sort fold_right]; [reflexivity|].
-  fold (dedup_sort t). rewrite insert_sorted_in, IH. cbn. intuition.
-Qed.
-
 Lemma first_nonallowed_none vs :
   first_nonallowed vs = None -> Forall (fun v => v = 0) vs.
 Proof.
